@@ -12,6 +12,7 @@ RULE = ('case = generated annotation with mass-resolvable modifications of every
 ASSUMPTIONS = [
     'reference shifts per site come from pv/refmods.py / pv/refchem.py; the per-site clause is asserted only for inputs whose modifications all have a definite site',
     'mass tolerance: half a unit of the precision per shift written (+2e-6 per residue whose net shift is below the documented 1e-6 significance threshold; +1e-4 per named modification under an isotope label, C03 tolerance)',
+    'unknown-position and interval modifications may stay in the result as numeric shifts at the same place (they have no residue of their own); static rules and isotope labels must be gone',
     'static N-Term / C-Term rules: only the mass clause is asserted (the library writes the rule on the first / last residue, the property does not say whether terminus or terminal residue)',
 ]
 
@@ -57,11 +58,30 @@ def check_case(case) -> Result:
     if obs['seq'] != pep['seq']:
         r.fail('same residues', 'C18/residues-changed', result=out, **ctx)
         return r
-    for f in ('static', 'isotope', 'unknown', 'intervals'):
+    for f in ('static', 'isotope'):
         if obs[f] is not None:
-            r.fail('the result contains only numeric residue / terminal / labile modifications', f'C18/result-keeps-{f}', result=out, **ctx)
+            r.fail('global rules and isotope labels are expanded per residue', f'C18/result-keeps-{f}', result=out, **ctx)
     shifts = 0
-    for f in ('labile', 'nterm', 'cterm'):
+    # unknown-position and interval modifications have no residue of their own: they may stay where they were, as numbers
+    for iv in (obs['intervals'] or []):
+        if [iv[0], iv[1], iv[2]] not in [[a, b, bool(c)] for a, b, c, _m in pep['intervals']]:
+            r.fail('an ambiguity interval of the result is one of the input', 'C18/interval-moved', result=out, **ctx)
+            continue
+        ms_in = next(m for a, b, c, m in pep['intervals'] if [a, b, bool(c)] == [iv[0], iv[1], iv[2]])
+        for v, _m in (iv[3] or []):
+            shifts += 1
+            if v[0] not in ('int', 'float'):
+                r.fail('the result contains only numeric modifications', 'C18/non-numeric/interval', result=out, **ctx)
+        got = sum(v[1] * m for v, m in (iv[3] or []) if v[0] in ('int', 'float'))
+        if abs(got - refmods.mods_mass(ms_in, True)) > 0.5 * 10 ** (-prec) + 1e-9:
+            r.fail('an interval keeps the mass of its modifications', 'C18/site/interval', expected=refmods.mods_mass(ms_in, True), got=got,
+                   result=out, **ctx)
+    if obs['unknown']:
+        got = sum(v[1] * m for v, m in obs['unknown'] if v[0] in ('int', 'float'))
+        if abs(got - refmods.mods_mass(pep['unknown'], True)) > 0.5 * 10 ** (-prec) + 1e-9:
+            r.fail('unknown-position modifications keep their mass', 'C18/site/unknown', expected=refmods.mods_mass(pep['unknown'], True),
+                   got=got, result=out, **ctx)
+    for f in ('labile', 'nterm', 'cterm', 'unknown'):
         for v, _m in (obs[f] or []):
             shifts += 1
             if v[0] not in ('int', 'float'):
@@ -100,7 +120,20 @@ def check_case(case) -> Result:
         Q = (n * C - C) + (n - 1) * (U + T + W) + I
         comps = [nm for nm, v in (('charge', C), ('unknown', U), ('static-terminal-rule', T), ('interval', I), ('label-on-water', W)) if v]
         qt = tol + 1e-5 * (n + 1) + 1e-4 * n
-        if comps and abs(diff - Q) <= qt:
+        # mass() weighs a labelled peptide through its composition, so its charge carriers (H+ by default) are labelled too; the
+        # condensed string has no label, so its charge carriers are plain
+        LC = EQ = 0.0
+        if pep['charge'] is not None and pep['isotope']:
+            cc = refmass.adduct_comp(pep['adducts']) if pep['adducts'] is not None else {'H': pep['charge'], 'e': -pep['charge']}
+            LC = _label_delta(pep['isotope'], cc)
+            if pep['adducts'] is not None:
+                # ... and through the composition an adduct ion written with a count loses all its electrons, while the unlabelled
+                # result goes through the adduct-mass routine of the C02 / C03 finding (electrons counted once per term)
+                EQ = refchem.comp_mass(cc, True) - refmass.adduct_mass_library_quirk(pep['adducts'], True)
+        if (abs(LC) > 1e-9 or abs(EQ) > 1e-9) and abs(diff + LC + EQ) <= tol + 1e-6:
+            sig = 'C18/mass/labelled-charge-carriers-not-expressible-without-the-label' if abs(LC) > 1e-9 else \
+                'C18/mass/adduct-electrons-not-multiplied-by-ion-count'
+        elif comps and abs(diff - Q) <= qt:
             sig = 'C18/mass/annotation-without-a-residue-repeated-per-residue'
         else:
             sig = 'C18/mass/not-preserved'
